@@ -210,6 +210,7 @@ class Interp:
                                     "findall": PyFunc(lambda p, s, *a: re.findall(p, s), "re.findall"),
                                     "sub": PyFunc(lambda p, r, s, *a: re.sub(p, r, s), "re.sub")}),
             "functools.reduce": PyFunc(self._reduce, "reduce", True),
+            "functools.partial": PyFunc(lambda f, *a, **k: Obj("partial", {"fmt": "<partial>"}, call=lambda *a2, **k2: self.call(f, list(a) + list(a2), {**k, **k2})), "partial", True),
             "itertools.product": PyFunc(lambda *a, repeat=1: list(__import__("itertools").product(*[list(q) for q in a], repeat=repeat)), "product", True),
             "itertools.chain": PyFunc(lambda *a: [y for q in a for y in q], "chain", True),
             "itertools.groupby": PyFunc(self._groupby, "groupby", True),
